@@ -15,7 +15,7 @@ def sort_by(f): _sort_by_impl(map([f]));
 def group_by(f): _group_by_impl(map([f]));
 def unique_by(f): [group_by(f)[] | .[0]];
 def unique: group_by(.) | map(.[0]);
-def reverse: [.[length - 1 - range(0;length)]];
+def reverse: if type == \"string\" then _unmodelled else [.[length - 1 - range(0;length)]] end;
 def ascii_downcase: explode | map( if 65 <= . and . <= 90 then . + 32  else . end) | implode;
 def ascii_upcase: explode | map( if 97 <= . and . <= 122 then . - 32  else . end) | implode;
 def max_by(f): _max_by_impl(map([f]));
@@ -83,7 +83,7 @@ def leaf_paths: paths(scalars);
 def _indices_j($i): if type == \"array\" and ($i|type) == \"array\" then .[$i]
   elif type == \"array\" then .[[$i]]
   elif type == \"string\" and ($i|type) == \"string\" then _strindices($i)
-  else .[[$i]] end;
+  else .[$i] end;
 def indices($i): _indices_j($i);
 def _indices_s($i): if ($i|type) == \"array\" or $i == \"\" or $i == null then _unmodelled else _indices_j($i) end;
 def index($i): indices($i) | .[0];
@@ -114,6 +114,33 @@ def _split_s($x): if . == \"\" then _unmodelled else _split_j($x) end;
 def _trim_s: if type == \"string\" then _trim_j else _unmodelled end;
 def _ltrim_s: if type == \"string\" then _ltrim_j else _unmodelled end;
 def _rtrim_s: if type == \"string\" then _rtrim_j else _unmodelled end;
+def IN(s): any(s == .; .);
+def IN(src; s): any(src == s; .);
+def INDEX(stream; idx_expr): reduce stream as $row ({}; .[$row|idx_expr|tostring] |= $row);
+def INDEX(idx_expr): INDEX(.[]; idx_expr);
+def bsearch($target):
+  if length == 0 then -1
+  elif length == 1 then (if $target == .[0] then 0 elif $target < .[0] then -1 else -2 end)
+  else . as $in
+    | [0, length-1, null]
+    | until( .[0] > .[1] ;
+             if .[2] != null then (.[1] = -1)
+             else
+               ( ( (.[1] + .[0]) / 2 ) | floor ) as $mid
+               | $in[$mid] as $monkey
+               | if $monkey == $target  then (.[2] = $mid)
+                 elif (.[0] == .[1])     then (.[1] = -1)
+                 elif $monkey < $target then (.[0] = ($mid + 1))
+                 else (.[1] = ($mid - 1))
+                 end
+             end )
+    | if .[2] == null then
+         if $in[ .[0] ] < $target then (-2 -.[0])
+         else (-1 -.[0])
+         end
+      else .[2]
+      end
+  end;
 def finites: select(isinfinite or isnan | not);
 .
 "
